@@ -2,7 +2,9 @@ package engine
 
 import (
 	"fmt"
+	"go/constant"
 	"go/token"
+	"go/types"
 	"strings"
 
 	"golang.org/x/tools/go/ssa"
@@ -296,6 +298,54 @@ func runC15Join(c *Ctx) {
 					}
 					if k, ok := constInt(side); ok {
 						off = k
+					}
+				}
+				// what is searched is the label ITSELF (the exported ExplainZh / ExplainEn, or a constant): a
+				// longer needle — the label behind a fixed prefix such as `", ` — recognises the label only in
+				// clauses of one layout; the group clauses (`"a", "b" explain: …`) and clauses written by custom
+				// functions are then dropped from the extract
+				if idx != nil {
+					needle := idx.Call.Args[1]
+					okNeedle := true
+					var hasLabel func(v ssa.Value, d int) bool
+					hasLabel = func(v ssa.Value, d int) bool {
+						if d > 5 {
+							return false
+						}
+						switch x := v.(type) {
+						case *ssa.UnOp:
+							if g, ok := x.X.(*ssa.Global); ok && x.Op == token.MUL && strings.HasPrefix(g.Name(), "Explain") {
+								return true
+							}
+						case *ssa.BinOp:
+							return x.Op == token.ADD && (hasLabel(x.X, d+1) || hasLabel(x.Y, d+1))
+						case *ssa.Phi:
+							for _, e := range x.Edges {
+								if hasLabel(e, d+1) {
+									return true
+								}
+							}
+						}
+						return false
+					}
+					if bo, ok := needle.(*ssa.BinOp); ok && bo.Op == token.ADD && hasLabel(bo, 0) {
+						okNeedle = false
+					}
+					// the labels are constants of the package: a folded needle that contains a label but is longer
+					if val, ok := staticString(p, needle, 0); ok {
+						if tp := p.TPkg("valid"); tp != nil {
+							for _, ln := range []string{"ExplainZh", "ExplainEn"} {
+								if cobj, ok := tp.Types.Scope().Lookup(ln).(*types.Const); ok {
+									lbl := constant.StringVal(cobj.Val())
+									if lbl != "" && strings.Contains(val, lbl) && val != lbl {
+										okNeedle = false
+									}
+								}
+							}
+						}
+					}
+					if !okNeedle {
+						bad = append(bad, "the text searched for at "+p.Pos(idx.Pos())+" is not the explanation label itself but something built around it: clauses whose label does not follow that exact prefix (group clauses, custom functions' clauses) are silently left out of the extract")
 					}
 				}
 				switch {
